@@ -68,6 +68,12 @@ def main():
             print('      ' + l[:220])
     print('%d twins, %d false alarms' % (len(results), fa))
     json.dump(results, open('/tmp/twincheck.json', 'w'), indent=1)
+    if '--record' in sys.argv:
+        for r in results:
+            if r.get('error'):
+                continue
+            st = 'reported' if r.get('violations') else ('cannot-decide' if r.get('errors') else 'silent')
+            json.dump({'status': st, 'rules': r.get('rules', []), 'errors': r.get('errors', [])}, open(os.path.join(VERIF, 'twins', r['name'], 'expect.json'), 'w'), indent=1)
 
 
 if __name__ == '__main__':
